@@ -55,10 +55,11 @@ type anEvent struct {
 	Tok   string `json:"tok"`
 	Claim string `json:"claim"`
 	Bad   string `json:"bad"` // concrete malformation when !Ok (not part of the abstract event)
+	Tgt   int    `json:"tgt"` // concrete target chain (0: 2 + id%2); sequences are 1000 + id, i.e. increasing in emission order per target chain
 }
 
 type anOp struct {
-	Op    string   `json:"op"` // block emit foreign reorg height tok req failnext hold
+	Op    string   `json:"op"` // block emit foreign reorg height lagheight tok req failnext hold
 	B     int      `json:"b"`
 	H     int      `json:"h"`
 	Ts    int      `json:"ts"` // seconds relative to the start of the scenario
@@ -254,6 +255,13 @@ func (nd *anNode) payload(e *anEvent) []byte {
 	return append([]byte{3}, vhExpand(fmt.Sprint("pl|", nd.sc.ID, "|", e.ID), 40)...)
 }
 
+func anTarget(e *anEvent) int {
+	if e.Tgt > 0 {
+		return e.Tgt
+	}
+	return 2 + e.ID%2
+}
+
 func (nd *anNode) sender(e *anEvent) Byte32 {
 	if e.Tb {
 		return nd.tbID
@@ -268,7 +276,7 @@ func (nd *anNode) fields(e *anEvent) []interface{} {
 	binary.BigEndian.PutUint32(nonce[:], uint32(e.ID))
 	f := []interface{}{
 		anVal("ByteVec", hex.EncodeToString(snd[:])),
-		anVal("U256", strconv.Itoa(2+e.ID%5)),
+		anVal("U256", strconv.Itoa(anTarget(e))),
 		anVal("U256", strconv.Itoa(1000+e.ID)),
 		anVal("ByteVec", hex.EncodeToString(nonce[:])),
 		anVal("ByteVec", hex.EncodeToString(nd.payload(e))),
@@ -344,6 +352,10 @@ func (nd *anNode) apply(op anOp) {
 			nd.height = op.H
 		}
 		a["h"] = nd.height
+	case "lagheight":
+		// the node's reported height falls back / lags behind blocks whose events it already serves
+		nd.height = op.H
+		a["h"] = nd.height
 	case "tok":
 		nd.tok[op.ID] = op.Shape
 		a["id"], a["shape"] = op.ID, op.Shape
@@ -391,7 +403,7 @@ func (nd *anNode) drain() {
 				b := nd.blocks[e.Blk]
 				wantTs := time.UnixMilli(nd.tsMillis(b))
 				exact := m.EmitterChain == vaa.ChainIDAlephium && string(m.EmitterAddress[:]) == string(snd[:]) &&
-					m.Sequence == uint64(1000+e.ID) && int(m.TargetChain) == 2+e.ID%5 && int(m.ConsistencyLevel) == e.Cl &&
+					m.Sequence == uint64(1000+e.ID) && int(m.TargetChain) == anTarget(e) && int(m.ConsistencyLevel) == e.Cl &&
 					string(m.Payload) == string(nd.payload(e)) && hex.EncodeToString(m.TxHash[:]) == nd.txHash(e.Tx) &&
 					m.Timestamp.Equal(wantTs)
 				a["exact"] = exact
